@@ -350,7 +350,7 @@ def _top_items(listtext):
     if cur: items.append("".join(cur))
     return items
 
-def _handshake_framing(payload, impl_out, listed=True):
+def _handshake_framing(payload, impl_out, listed=True, exact=True):
     """framing oracle for handshake payloads: each returned message accounts for exactly 4 + its 24-bit
     length, so the consumed byte count must be the sum over the returned messages, and a message whose
     declared length exceeds the payload can never be returned"""
@@ -364,7 +364,7 @@ def _handshake_framing(payload, impl_out, listed=True):
         hl = int.from_bytes(payload[pos+1:pos+4], "big")
         if pos + 4 + hl > len(payload): return "a handshake message whose 24-bit length (%d) exceeds the payload was returned" % hl
         pos += 4 + hl
-    if len(payload) - rem != pos:
+    if exact and len(payload) - rem != pos:
         return "consumed %d bytes but the %d returned messages frame %d" % (len(payload) - rem, k, pos)
     return None
 
@@ -384,8 +384,9 @@ def direct_oracle(pid, case, impl_out):
             L = int.from_bytes(b[3:5], "big")
             m = re.match(r"\(ok @\S*\+(\d+) \(Plaintext \(Hdr [^)]*\) (\[.*\])\)\)$", impl_out or "")
             if m and len(b) >= 5 + L:
-                # one-step parsing must consume the whole record; its messages must frame the payload exactly
-                r = _handshake_framing(b[5:5+L], "(ok @_+0 %s)" % m.group(2))
+                # one-step parsing drops the undecoded tail (map_parser): the returned messages must frame a
+                # prefix of the payload, each within its own 24-bit length
+                r = _handshake_framing(b[5:5+L], "(ok @_+0 %s)" % m.group(2), exact=False)
                 if r: return r
     if pid in ("C07", "C01") and case.line.startswith("defrag "):
         if "(panic)" in impl_out: return "defragmenter panicked"
